@@ -158,6 +158,19 @@ def gen_paging(rng, tree, base, site, mode):
     return paging
 
 
+def make_cyclic(rng, paging):
+    """let one listing's nextLink chain run into a page it already served (cycle inside one folder listing)"""
+    cands = [oid for oid, cuts in paging.items() if len(cuts) >= 2]
+    if not cands:
+        return False
+    oid = rng.choice(cands)
+    cuts = paging[oid]
+    j = rng.randrange(1, len(cuts))
+    i = rng.randrange(0, j)
+    cuts[j] = (cuts[j][0], cuts[i][1])
+    return True
+
+
 def stamp_exact(x):
     """Exact instant (Fraction of seconds since epoch, UTC) of a Graph-style timestamp, or 'naive', or None."""
     if not isinstance(x, str):
@@ -488,6 +501,8 @@ class Server:
 
     def __call__(self, request, timeout=None):
         k = self.n
+        if k >= 3000:       # watchdog: no generated library needs that many requests; an unguarded loop would never stop
+            raise _Budget()
         self.n += 1
         url = request.full_url
         self.log.append((request.get_method() == "POST", url))
@@ -645,8 +660,13 @@ def call(client_mod, client, flt, drive, snap=lambda: None):
     closed by garbage collection must not count as closed by the client)"""
     from sharepoint2text.sharepoint_io.exceptions import SharePointAuthError, SharePointRequestError
     try:
+        via = flt.get("_via") if flt else None
         if flt is None:
             r = client.list_all_files()
+        elif via:      # the convenience wrappers list_files_created_since / list_files_modified_since
+            meth = client.list_files_created_since if via == "created" else client.list_files_modified_since
+            r = list(meth(flt[via + "_after"], folder_paths=list(flt["folder_paths"]) or None,
+                          extensions=list(flt["extensions"]) or None, drive_id=drive))
         else:
             r = list(client.list_files_filtered(make_filter(client_mod, flt), drive_id=drive))
         snap()
@@ -937,6 +957,83 @@ def _explained_by_truncation(case, got, expected):
     return strip(got) == strip(exp2)
 
 
+# ----------------------------------------------------------------------------- repeating nextLink (no loop guard)
+class _Budget(Exception):
+    """raised by the simulated server when the client exceeds the request budget (watchdog of the replay)"""
+
+
+def cyclic_replay(client_mod, base, site_api, token_url, cycle, budget):
+    """root listing whose pages form a cycle of the given length; returns (outcome, requests made)"""
+    root = children_url(base, SITE, None, None)
+    urls = [root] + [f"{base}/cycle/{i}" for i in range(1, cycle)]
+    table = {site_api: {"id": SITE}}
+    for i, u in enumerate(urls):
+        table[u] = {"value": [{"name": f"f{i}.txt", "id": f"c{i}", "file": {}}], "@odata.nextLink": urls[(i + 1) % cycle]}
+    srv = Server(table, token_url, {}, 0)
+    inner = srv.__call__
+
+    def guarded(request, timeout=None):
+        if srv.n >= budget:
+            raise _Budget()
+        return inner(request, timeout)
+    creds = client_mod.EntraIDAppCredentials(tenant_id=TENANT, client_id="cid", client_secret="sec")
+    client = client_mod.SharePointRestClient(SITE_URL, creds, request_func=guarded)
+    from sharepoint2text.sharepoint_io.exceptions import SharePointError
+    try:
+        client.list_all_files()
+        return "returned", srv.n
+    except _Budget:
+        return "still-requesting", srv.n
+    except SharePointError as e:
+        return ("client-error:" + type(e).__name__, getattr(e, "status_code", "-"), getattr(e, "url", None) == urls[0]), srv.n
+    except Exception as e:  # noqa
+        return "other:" + type(e).__name__, srv.n
+
+
+# ----------------------------------------------------------------------------- inventory of the modelled code (fail-closed)
+MODELLED = {"fetch_access_token", "_ensure_token", "_get_headers", "get_site_id", "list_all_files", "list_files_filtered",
+            "_walk_and_filter", "_get_folder_by_path", "_build_children_url", "_walk_drive_items", "_get_folders_from_url",
+            "_list_items_paginated", "_get_page", "_parse_file_item", "_extract_custom_fields", "_get_json", "_send"}
+MODELLED |= {"list_files_modified_since", "list_files_created_since"}
+NOT_MODELLED = {"__init__", "list_drives", "list_files_in_folder",
+                "download_file", "download_file_by_path"}
+# function -> (number of while loops, number of for loops, exception classes caught in order)
+SHAPE = {
+    "_send": (0, 0, ["HTTPError", "Exception", "URLError", "OSError,HTTPException", "OSError,HTTPException", "Exception"]),
+    "_get_json": (0, 0, ["ValueError", "json.JSONDecodeError"]),
+    "_get_page": (0, 0, []),
+    "_list_items_paginated": (1, 1, []),
+    "_get_folders_from_url": (1, 1, []),
+    "_walk_drive_items": (0, 2, []),
+    "_get_folder_by_path": (0, 0, ["SharePointRequestError"]),
+    "_walk_and_filter": (0, 1, []),
+    "list_files_filtered": (0, 1, []),
+    "fetch_access_token": (0, 0, ["ValueError"]),
+    "get_site_id": (0, 0, []),
+}
+
+
+def code_inventory():
+    import ast
+    src = (common.REPO / "sharepoint2text" / "sharepoint_io" / "client.py").read_text(encoding="utf-8")
+    tree = ast.parse(src)
+    cls = next(n for n in tree.body if isinstance(n, ast.ClassDef) and n.name == "SharePointRestClient")
+    methods, shape = set(), {}
+    for fn in cls.body:
+        if isinstance(fn, (ast.FunctionDef, ast.AsyncFunctionDef)):
+            methods.add(fn.name)
+            whiles = sum(isinstance(n, ast.While) for n in ast.walk(fn))
+            fors = sum(isinstance(n, ast.For) for n in ast.walk(fn))
+            handlers = []
+            for n in ast.walk(fn):
+                if isinstance(n, ast.ExceptHandler):
+                    t = n.type
+                    handlers.append("bare" if t is None else ",".join(ast.unparse(e) for e in t.elts) if isinstance(t, ast.Tuple)
+                                    else ast.unparse(t))
+            shape[fn.name] = (whiles, fors, handlers)
+    return methods, shape
+
+
 # ----------------------------------------------------------------------------- main
 def run(ctx):
     import logging
@@ -968,9 +1065,44 @@ def run(ctx):
         "C18_walk_exact", "C18_list_all_files_exact", "C18_filtered_is_filter_of_walk", "C18_filtered_by_folder_paths",
         "C18_matches_spec",
         "C18_bounds_inclusive_exclusive", "C18_floor_preserves_bounds", "C18_fault_contained", "C18_retry_complete",
-        "C18_responses_closed_always"])
+        "C18_responses_closed_always", "C18_pagination_termination_refuted_v0", "C18_pagination_terminates",
+        "C18_repeated_link_raises", "C18_files_since_spec"])
     ok2, _ = ctx.prove("C18/Inst.v", ["Gen/C18Tables.vo", "C18/Corr.vo", "C18/Proofs.vo"],
-                       expected=["C18_tables_wf", "C18_sample_wf", "C18_sample_run"])
+                       expected=["C18_tables_wf", "C18_sample_wf", "C18_sample_run", "C18_cycle_witness"])
+
+    # fail-closed inventory: the methods of the client and the loop / handler structure of the modelled ones are the ones
+    # the model was read off; a new method, loop or handler means the model has to be looked at again
+    methods, shape = code_inventory()
+    unknown = sorted(methods - MODELLED - NOT_MODELLED)
+    gone = sorted(MODELLED - methods)
+    drift = {k: (shape.get(k), v) for k, v in SHAPE.items()
+             if shape.get(k) is None or (shape[k][0], shape[k][1], sorted(shape[k][2])) != (v[0], v[1], sorted(v[2]))}
+    ctx.obligation("inventory:SharePointRestClient methods and loop/handler structure as modelled",
+                   not unknown and not gone and not drift,
+                   f"unknown methods {unknown}; modelled methods missing {gone}; structure differs (found, modelled): {drift}")
+    ctx.extra["modelled_functions"] = sorted(MODELLED)
+    ctx.extra["not_modelled_functions"] = sorted(NOT_MODELLED)
+
+    # a server that repeats a nextLink (cycle of k pages): the guarded loops raise the request error for the repeated
+    # url after following each page once (C18_repeated_link_raises, C18_pagination_terminates, C18_cycle_witness);
+    # replayed on the real client under a request budget
+    loops = []
+    for cycle, budget in ((1, 61), (2, 200), (3, 500)):
+        outcome, n = cyclic_replay(client_mod, base, site_api, token_url, cycle, budget)
+        ctx.case(("cyclic-nextlink", cycle, budget), True, kind="cyclic-nextlink")
+        loops.append((cycle, budget, outcome, n))
+        if outcome == "still-requesting":
+            ctx.finding("nextlink-cycle-no-guard",
+                        f"a listing whose nextLink chain repeats (cycle length {cycle}) makes list_all_files request forever: "
+                        f"{n} requests made when the watchdog stopped it, no error raised",
+                        {"cycle_length": cycle, "budget": budget, "requests": n,
+                         "server": "root children page i has @odata.nextLink = page (i+1) mod cycle"})
+        elif outcome != ("client-error:SharePointRequestError", None, True) or n != cycle + 2:
+            ctx.finding("nextlink-cycle-wrong-outcome", f"cyclic nextLink (length {cycle}): expected SharePointRequestError(None, "
+                        f"url of the repeated page) after token+site+{cycle} requests, got {outcome} after {n} requests",
+                        {"cycle_length": cycle, "outcome": outcome, "requests": n})
+    ctx.obligation("correspondence:repeating nextLink — model (request error for the repeated url after one pass) == implementation",
+                   all(o == ("client-error:SharePointRequestError", None, True) and n == c + 2 for c, _, o, n in loops), repr(loops))
 
     rec = Recorder()
     real_fn, real_dt = client_mod.fnmatch, client_mod.datetime
@@ -999,6 +1131,15 @@ def run(ctx):
                 paging = gen_paging(rng, tree, base, SITE, rng.choice(["single", "one", "any"]))
             if flt is None:
                 drive = None
+            else:
+                set_bounds = [k for k in ("created_after", "created_before", "modified_after", "modified_before") if flt[k]]
+                if len(set_bounds) == 1 and set_bounds[0].endswith("_after") and not flt["path_patterns"] and rng.random() < 0.6:
+                    flt["_via"] = set_bounds[0].split("_")[0]
+            # FileFilter.matches raising TypeError (naive vs aware bound) is evaluated lazily by the generator, the model
+            # filters after the walk: with a second source of errors (fault, repeated nextLink) the order in which the two
+            # surface differs, so such filters are run without faults and without cycles
+            lazy_sensitive = mode == "random" and fk == "naive"
+            cyclic = mode == "random" and idx % 9 == 4 and not lazy_sensitive and make_cyclic(rng, paging)
             fin = {oid for oid in paging if rng.random() < 0.2}
             table = build_table(base, site_api, SITE, drive, tree, paging, fin)
             rec.glob, rec.iso = {}, {}
@@ -1010,6 +1151,12 @@ def run(ctx):
                 env_cases.append({"tree": tree, "paging": paging, "fin": sorted(map(str, fin)), "_fin": fin, "filter": flt,
                                   "drive": drive, "faults": [], "bits": bits})
             expected = ref_listing(tree, flt, sysfields) if unique_names(tree) or not (flt and flt["folder_paths"]) else None
+            if cyclic:
+                expected = None          # whether the cyclic listing is reached depends on the filter's folder_paths
+                hres = healthy["result"]
+                if hres[0] == "other" or (hres[0] == "request" and hres[1] is not None):
+                    ctx.finding("nextlink-cycle-wrong-outcome", f"library with a repeating nextLink: {hres}",
+                                {"tree": tree, "paging": {str(k): v for k, v in paging.items()}, "result": hres})
             observations = [healthy]
             judge(ctx, case, healthy, None, expected)
             m = len(healthy["log"])
@@ -1019,7 +1166,7 @@ def run(ctx):
                 scripts = [[(k, f)] for k in range(m) for f in kinds]
                 if len(scripts) > ctx.n(120, 350):
                     scripts = rng.sample(scripts, ctx.n(120, 350))
-            elif rng.random() < 0.5 and m:
+            elif rng.random() < 0.5 and m and not lazy_sensitive:
                 scripts = [[(rng.randrange(m), rng.choice(FAULTS))]]
                 if rng.random() < 0.3:      # a fault sequence: second fault hits the retry
                     scripts.append([(rng.randrange(m), rng.choice(FAULTS)), (m + rng.randrange(3), rng.choice(FAULTS))])
@@ -1046,9 +1193,13 @@ def run(ctx):
             quotes = set(all_paths(tree)) | set(p.strip("/") for p in (flt["folder_paths"] if flt else []))
             pg = coq_list(["(%s, %s)" % (c_ostr(k), coq_list([f"({n}%nat, {coq_str(l)})" for n, l in v])) for k, v in paging.items()])
             cases_coq.append("{| c_or := %s; c_site := %s; c_drive := %s; c_token := %s; c_tree := %s; c_paging := %s; "
-                             "c_filter := %s; c_obs := %s |}" % (
+                             "c_filter := %s; c_since := %s; c_obs := %s |}" % (
                                  c_oracles(rec, lowers, quotes), coq_str(SITE), c_ostr(drive), coq_str(TOK),
-                                 coq_list([c_node(n) for n in tree]), pg, c_filter(flt), coq_list(coq_obs)))
+                                 coq_list([c_node(n) for n in tree]), pg, c_filter(flt),
+                                 ("None" if not (flt and flt.get("_via")) else
+                                  "(Some (%s, %s))" % (coq_bool(flt["_via"] == "created"),
+                                                      c_dt(flt[flt["_via"] + "_after"])[6:-1])),
+                                 coq_list(coq_obs)))
             cases_info.append({"tree": tree, "paging": {str(k): v for k, v in paging.items()}, "filter": repr(flt),
                                "drive": drive, "n_obs": len(observations)})
 
